@@ -38,7 +38,7 @@ SCENARIO_TIMEOUT = 300
 PROBES = ["earlier_killed", "earlier_io_error", "earlier_clean", "debris_spill_files", "debris_level_files",
           "debris_partial_result", "debris_header_only", "debris_unreadable_parquet", "same_data", "other_data",
           "other_format", "multi_history", "cli", "cli_tsv_leftover", "observed_workers>1", "torn_write",
-          "debris_zero_length", "prefix_or_root_differs", "observed_rows_multiple_of_chunk", "rollup_tool", "rollup_same_dir"]
+          "debris_zero_length", "prefix_or_root_differs", "observed_rows_multiple_of_chunk", "rollup_tool", "rollup_same_dir", "earlier_rollup_had_other_inputs", "rollup_outputs_match_input_pattern"]
 RULE = (
     "Histories in one destination directory. Family 1 enumerates, for each grid cell (earlier chunk size x observed "
     "chunk size x same/other data x same/other format), EVERY mutation call index of the earlier assign_confidence run "
@@ -195,8 +195,9 @@ def scenarios(tier, batch_seed):
         if f3_done < n_f3:
             for scn in _family3(derive_seed(PROPERTY, batch_seed, "f3", f3_done), tier):
                 yield scn
-            for scn in _family4(derive_seed(PROPERTY, batch_seed, "f4", f3_done), tier):
-                yield scn
+            for rep_ in range(2 if tier == "quick" else 1):
+                for scn in _family4(derive_seed(PROPERTY, batch_seed, "f4", f3_done, rep_), tier):
+                    yield scn
             f3_done += 1
 
 
@@ -274,8 +275,19 @@ def _family4(seed, tier):
     base = {"property": PROPERTY, "family": 4, "rollup": True, "tables": tabs,
             "score_seeds": [rng.getrandbits(32) for _ in tabs], "same_dir": rng.random() < 0.6,
             "glob_seed": rng.getrandbits(16)}
-    ks = range(0, 16) if tier != "quick" else [0, 1, 2, 3, 5, 7, 9, 11]
+    # base level: with "peptide"/"precursor" the tool's own result files match its input pattern (*.targets.<level>s)
+    base["level"] = rng.choice(["psm", "peptide", "peptide"] + (["precursor"] if "Precursor" in level_cols else []))
+    # inputs that exist only while the EARLIER rollup runs (an experiment withdrawn / re-scored afterwards)
+    n_extra = rng.choice([0, 1, 1, 2])
+    base["extra_tables"] = [_table_params(rng, file_id=10 + i, n_spec=rng.randint(45, 70), level_cols=level_cols)
+                            for i in range(n_extra)]
+    base["extra_score_seeds"] = [rng.getrandbits(32) for _ in range(n_extra)]
+    ks = list(range(0, 16)) if tier != "quick" else [0, 1, 2, 3, 5, 7, 9, 11]
     i = 0
+    scn = clone(base)
+    scn["seed"] = derive_seed(seed, "nofault")
+    scn["fault"] = None  # the earlier rollup completes (with other inputs)
+    yield scn
     for k in ks:
         for kind, frac in (("kill_before", None), ("kill_torn", 0.5), ("io_error", None)):
             scn = clone(base)
@@ -318,12 +330,25 @@ def _run_rollup_history(scn, workdir):
                 return {"status": "uninformative", "message": f"input production failed: {rep.get('error')}"[:160],
                         "digest": digest(scn), "nontrivial": False, "probes": probes}
         roots[tag] = root
+    extra_names = []
+    for i, (tab, ss) in enumerate(zip(scn.get("extra_tables") or [], scn.get("extra_score_seeds") or [])):
+        fr = f"x{i}."
+        run = {"tables": [tab], "score_seed": ss, "format": "pin", "knobs": {}, "max_workers": 1, "sched": {"mode": "fifo"},
+               "glob_seed": None, "fault": None, "seed": 1, "tag": f"x{i}", "in_name": f"xin{i}",
+               "conf": {"decoys": True, "dedup": True, "rollup": True, "eval_fdr": 0.1037, "file_root": fr}}
+        rep = H.run_conf(run, roots["dirty"])
+        if rep["outcome"] == "ok":
+            extra_names.append(fr)
+    probes["earlier_rollup_had_other_inputs"] = int(bool(extra_names))
+
     def dirs(root):
         src = root / "out"
         return src, (src if scn["same_dir"] else root / "roll")
     src_d, dest_d = dirs(roots["dirty"])
     src_c, dest_c = dirs(roots["clean"])
-    e = {"src": str(src_d), "dest": str(dest_d), "fault": scn.get("fault"), "glob_seed": scn.get("glob_seed")}
+    lvl = scn.get("level", "psm")
+    probes["rollup_outputs_match_input_pattern"] = int(lvl != "psm" and scn["same_dir"])
+    e = {"src": str(src_d), "dest": str(dest_d), "fault": scn.get("fault"), "glob_seed": scn.get("glob_seed"), "level": lvl}
     rep_e = H.run_rollup_hist(e, roots["dirty"])
     if rep_e["outcome"] in ("timeout", "harness_error"):
         raise RuntimeError(f"earlier rollup step failed: {rep_e}")
@@ -332,10 +357,14 @@ def _run_rollup_history(scn, workdir):
         if f["kind"] == "kill_torn":
             probes["torn_write"] = 1
     probes["earlier_killed" if rep_e["outcome"] == "killed" else ("earlier_io_error" if rep_e["outcome"] == "error" else "earlier_clean")] = 1
+    # the extra inputs are withdrawn before the observed run
+    for f in os.listdir(src_d):
+        if any(f.startswith(fr) for fr in extra_names):
+            os.unlink(src_d / f)
     debris = [x for x in H.listing(dest_d) if os.path.basename(x[0]).startswith("rollup.")]
     out = {
         "status": "ok",
-        "digest": digest([scn["tables"], scn["score_seeds"], scn.get("fault"), scn["same_dir"], digest(debris)]),
+        "digest": digest([scn["tables"], scn["score_seeds"], scn.get("extra_tables"), scn.get("fault"), scn["same_dir"], scn.get("level"), digest(debris)]),
         "nontrivial": bool(debris),
         "probes": probes,
         "faults": faults,
@@ -349,8 +378,8 @@ def _run_rollup_history(scn, workdir):
         out.update(status="violation", clause=clause, message=msg, signature=sig)
         return out
 
-    rep_d = H.run_rollup_hist({"src": str(src_d), "dest": str(dest_d), "fault": None, "glob_seed": scn.get("glob_seed")}, roots["dirty"])
-    rep_c = H.run_rollup_hist({"src": str(src_c), "dest": str(dest_c), "fault": None, "glob_seed": scn.get("glob_seed")}, roots["clean"])
+    rep_d = H.run_rollup_hist({"src": str(src_d), "dest": str(dest_d), "fault": None, "glob_seed": scn.get("glob_seed"), "level": lvl}, roots["dirty"])
+    rep_c = H.run_rollup_hist({"src": str(src_c), "dest": str(dest_c), "fault": None, "glob_seed": scn.get("glob_seed"), "level": lvl}, roots["clean"])
     for rp in (rep_d, rep_c):
         if rp["outcome"] in ("timeout", "harness_error", "killed"):
             raise RuntimeError(f"observed rollup step failed: {rp}")
